@@ -15,5 +15,6 @@ CONSTANTS
   AdoptGuard = TRUE
   WeakMessager = TRUE
   CloseSend = "try"
+  DrainInLoop = TRUE
 INVARIANTS HandleImpliesLock AtMostOneInstance RefusedChangesNothing IncompatibleRefused AbsentMarkerRefused UnlockAfterSync NoUnsyncedOpen DropReturnedWorkersGone SettledUnlocked NoFinding_Stranded
 CHECK_DEADLOCK FALSE
